@@ -20,8 +20,8 @@ pub struct Case {
 
 pub struct C18;
 
-const WORDS: &[&str] = &["a", "b", "A", "ab", "Ab", "c", "a", "b", "İ", "ß", "SS", "Σ", "σ", "ς", "é", "É", "the", "The"];
-const SEPS: &[&str] = &[" ", " ", "  ", "\t", "\n", " \r\n"];
+pub const WORDS: &[&str] = &["a", "b", "A", "ab", "Ab", "c", "a", "b", "İ", "ß", "SS", "Σ", "σ", "ς", "é", "É", "the", "The"];
+pub const SEPS: &[&str] = &[" ", " ", "  ", "\t", "\n", " \r\n"];
 
 fn join(w: &[String], seps: &[String], lead: bool) -> String {
     let mut s = String::new();
@@ -43,6 +43,11 @@ fn join(w: &[String], seps: &[String], lead: bool) -> String {
 impl Prop for C18 {
     type Case = Case;
     const ID: &'static str = "C18";
+    const FUZZ_TARGET: Option<&'static str> = Some("lcs_match");
+    const FUZZ_RUNS: u64 = 4000000;
+    fn fuzz_decode(bytes: &[u8]) -> Option<Case> {
+        crate::fuzzdec::c18(bytes)
+    }
     const RULE: &'static str = "two sequences of 0-8 words over a small vocabulary with repeats, case variants and non-ASCII words with special case mappings, joined by runs of ASCII whitespace (leading/trailing runs included) x ignore_case. Oracle: index pairs strictly increasing in both coordinates, matched words equal (under to_lowercase when requested), their number equals the textbook LCS length, reported lengths are the word counts, edited_words are the complements of the matched index sets. Non-trivial: LCS length strictly between 0 and min(len) with a repeated word. Distinct = distinct serialised case.";
     const ESSENTIAL: &'static [&'static str] = &["ignore_case", "case_sensitive", "empty_side", "repeated_word", "partial_match"];
 
